@@ -258,6 +258,9 @@ inductive Val
   | rec3 (a : Bytes) (b : List Bytes) (c : Int)
   /-- a value the encoder rejects after having emitted what precedes it -/
   | bad
+  /-- a value given by its compact text (structs of fixed-width integers, written by the driver);
+      not laid out by `indentV` -/
+  | lit (text : Bytes)
 inductive Vals
   | nil
   | cons (v : Val) (vs : Vals)
@@ -302,6 +305,7 @@ def compile : Val → List Tok
     [.lit [123, 34, 97, 34, 58], .str a, .lit [44, 34, 98, 34, 58, 91]] ++ strsToks b ++
     [.lit [93, 44, 34, 99, 34, 58], .lit (decInt c), .lit [125]]
   | .bad => [.bad]
+  | .lit t => [.lit t]
 def compileTail : Vals → List Tok
   | .nil => [.lit [93]]
   | .cons x xs => .lit [44] :: (compile x ++ compileTail xs)
@@ -353,8 +357,9 @@ def strEnc (env : Env) (n : Natives) : StrImpl → SBuf → Bytes → Except Fau
   | .jit => jitString env n.quote
   | .alg => quoteLoop env n.quote
 
-/-- encoder.EncodeInto(&buf, v, opts) (encoder.go:197): the body appends to the caller's slice;
-    `encodeFinish` (encoder.go:221) re-escapes THE WHOLE slice into a new one (`HTMLEscape(nil, buf)`) -/
+/-- encoder.EncodeInto(&buf, v, opts) (encoder.go:197): the body appends to the caller's slice; the
+    post-pass `encodeFinish` (`HTMLEscape(nil, tail)`, a scratch slice) is applied to the bytes this
+    call appended only, and the result is appended behind the caller's old length -/
 def encodeInto (env : Env) (n : Natives) (impl : StrImpl) (o : Opts) (b : SBuf) (v : Val) :
     Except Fault (SBuf × Bool) :=
   match encodeToks env (strEnc env n impl) (compile v) b with
@@ -362,9 +367,12 @@ def encodeInto (env : Env) (n : Natives) (impl : StrImpl) (o : Opts) (b : SBuf) 
   | .ok (b1, true) => .ok (b1, true)
   | .ok (b1, false) =>
     if o.escapeHTML then
-      match htmlEscapeLoop env n.html { mem := [], len := 0, gen := b1.gen + 1 } b1.bytes with
+      match htmlEscapeLoop env n.html { mem := [], len := 0, gen := 0 } (b1.bytes.drop b.len) with
       | .error e => .error e
-      | .ok b2 => .ok (b2, false)
+      | .ok t =>
+        match ({ b1 with len := b.len } : SBuf).emit env t.bytes with
+        | .error e => .error e
+        | .ok b2 => .ok (b2, false)
     else .ok (b1, false)
 
 /-! ### encoding/json.Indent of the compact text, written on the value -/
@@ -396,6 +404,7 @@ def indentV (q : Bytes → Bytes) (pre ind : Bytes) (d : Nat) : Val → Bytes
   | .int i => decInt i
   | .str s => q s
   | .bad => []
+  | .lit t => t
 def indentTail (q : Bytes → Bytes) (pre ind : Bytes) (d : Nat) : Vals → Bytes
   | .nil => nl pre ind d ++ [93]
   | .cons x xs => [44] ++ nl pre ind (d + 1) ++ indentV q pre ind (d + 1) x ++ indentTail q pre ind d xs
